@@ -312,6 +312,8 @@ def oracle_c03(res, i):
     out = res['impl'][i]
     if cmd[0] == 'dmgsweep' and not out.startswith('sweep ok'):
         return f'MISMATCH reopen on a damaged index changed behaviour: {out}'
+    if cmd[0] == 'metasweep' and not out.startswith('sweep ok'):
+        return f'MISMATCH close and reopen (file name prefix {cmd[2] if len(cmd) > 2 else "t"}): {out}'
     if cmd[0] in ('restart', 'open') and out != 'ok':
         return f'MISMATCH {cmd[0]}: {out}'
     return None
@@ -330,7 +332,7 @@ def restart_features(lines):
 
 PROPS['C03'] = dict(
     gen=lambda rng, tier: gen.restart_scenario(rng, size=tier),
-    p_cmds={'r', 'c', 'ram', 'ra', 'rw', 'counts', 'dmgsweep', 'restart'},
+    p_cmds={'r', 'c', 'ram', 'ra', 'rw', 'counts', 'dmgsweep', 'metasweep', 'restart'},
     oracle_cmds={'r', 'c', 'ram', 'ra', 'rw', 'counts', 'states'}, py_oracle=oracle_c03,
     count={'quick': 64, 'thorough': 240}, timeout=2400,
     nontrivial=lambda lines: any(l.startswith('dmgsweep') for l in lines) and len({l.split()[1] for l in lines if l[:2] in ('w ', 'd ')}) >= 2,
